@@ -18,7 +18,7 @@ ASSUMPTIONS = ['agreement is not correctness: a common-mode error is invisible h
 BUDGET = {'quick': 170, 'thorough': 1500}
 CHUNK = {'quick': 6, 'thorough': 20}
 CASE_TIMEOUT = 300
-REQUIRED = ['multigraph_inputs', 'familyA_compared', 'familyB_compared', 'familyB_discrete_compared', 'familyC_SIR_compared', 'familyC_SIS_compared', 'familyD_SIR_compared',
+REQUIRED = ['graphs_edited_in_place_after_earlier_calls', 'multigraph_inputs', 'familyA_compared', 'familyB_compared', 'familyB_discrete_compared', 'familyC_SIR_compared', 'familyC_SIS_compared', 'familyD_SIR_compared',
             'familyD_SIS_compared', 'pairs_compared']
 
 
@@ -57,8 +57,30 @@ def gen_cases(tier, seed):
                 nn += 1
             g = nx.random_regular_graph(kk, nn, seed=r.randrange(10 ** 9))
             c['graph'] = {'n': nn, 'edges': sorted([sorted(e) for e in g.edges()]), 'labels': r.choice(gen.LABEL_SCHEMES), 'k': kk, 'decoy': r.random() < 0.3}
+        if not c['graph'].get('multi') and r.random() < 0.25:
+            ph = gen.make_prehistory(r, c['graph'])
+            if ph:
+                c['prehistory'] = ph
         out.append(c)
     return out
+
+
+def _warmup(G, lab):
+    # the models have been evaluated before on this very graph object (then edited in place)
+    import EoN
+    with warnings.catch_warnings():
+        warnings.simplefilter('ignore')
+        for nm in ('EBCM_from_graph', 'SIR_homogeneous_pairwise_from_graph', 'SIS_compact_pairwise_from_graph', 'EBCM_pref_mix_from_graph',
+                   'SIR_super_compact_pairwise_from_graph'):
+            try:
+                getattr(EoN, nm)(G, 0.8, 1.0, rho=0.1, tmax=1.0, tcount=3)
+            except Exception:
+                pass
+        try:
+            EoN.EBCM_discrete_from_graph(G, 0.4, rho=0.1, tmax=2)
+            EoN.estimate_R0(G, transmissibility=0.5)
+        except Exception:
+            pass
 
 
 def _run(name, case, G, extra=None):
@@ -73,7 +95,11 @@ def _run(name, case, G, extra=None):
 def run_case(case):
     import EoN
     res = new_result()
-    G, lab = gen.build_graph(case['graph'])
+    if case.get('prehistory'):
+        G, lab = gen.build_graph_with_history(case['graph'], case['prehistory'], _warmup)
+        bump(res, 'graphs_edited_in_place_after_earlier_calls')
+    else:
+        G, lab = gen.build_graph(case['graph'])
     N = float(G.order())
     if case['graph'].get('multi'):
         bump(res, 'multigraph_inputs')
